@@ -24,7 +24,7 @@ def run(ctx):
                 "update on/off x 1-2 chains, every trace entry restored and re-scored; distinct = (op, tree) / run config")
     ctx.assumptions = ["likelihood equalities on data inside the underflow window of C02",
                        "1e-8 relative tolerance on vectors, 1e-9 relative on recorded log_p_one"]
-    tasks = [{"seed": ctx.seed, "shard": i, "count": 8 if quick else 120, "steps": 60 if quick else 120, "nmax": 8,
+    tasks = [{"seed": ctx.seed, "shard": i, "count": 8 if quick else 120, "steps": 60 if quick else 120, "nmax": 8, "big": 1 if quick else 4, "big_steps": 20,
               "monitors": ["serial"]} for i in range(shards)]
     ctx.map("vlib.histrun", "history_task", tasks, timeout=3000)
     c19.run_configs(ctx, n_runs=48 if quick else 4000, focus="trace", chains=not quick or True)
